@@ -319,6 +319,8 @@ def vocabulary_blocks():
         a, r = E.ARITY[op]
         arg = "a1" if op == "ASSIGNIMMUTABLE" else None
         for blk in ([(op, arg), (op, arg)] + ([("ADD", None)] if (a, r) == (0, 1) else []), [(op, arg)]):
+            if any(o in E.TERMINAL for o, _ in blk[:-1]):
+                continue
             try:
                 E.need_delta(blk)
             except Exception:
